@@ -5,10 +5,12 @@
   unit clause: `add_unit_clause` (delete the complementary leaf with its chains of and-ancestors /
   hang the new literal and the or-triangles of the features in between under an and-root) followed
   by `rebuild`.  The theorems say that the edited circuit denotes `previous formula ∧ f`.
-  The CNF-backed strategies (sub-DAG replacement, recompilation, undo cache) are not modelled: they
-  are validated against the truth table of the edited clause set by the harness only.
+  The CNF-backed strategies: clause bookkeeping, strategy choice, recompilation and the undo cache are
+  modelled in Model/EditCnf.lean (second half of this file, compiler a parameter); the sub-DAG splice
+  is not (open finding), it is validated against the truth table of the edited clause set only.
 -/
 import DdnnfVerif.Proofs.Edit
+import DdnnfVerif.Proofs.EditCnfEx
 namespace Ddnnf.C11
 
 /-- old feature: the edited circuit is true exactly on the assignments that satisfy the previous
@@ -51,5 +53,75 @@ theorem new_feature_unit_clause (nodes : List NType) (n : Nat) (htopo : Topo nod
       count (addUnit nodes n f).2 (rootIx (addUnit nodes n f).2) =
         count nodes (rootIx nodes) * 2 ^ (f.natAbs - 1 - n) :=
   addUnitNew_spec nodes n htopo hne f hf
+
+/-! ### the CNF-backed strategies: clause bookkeeping and strategy machine (Model/EditCnf.lean)
+
+`EC.State` = stored clause list, feature count, the clause list the live graph was compiled from
+(`den`, ghost: the compiler is a parameter) and the undo cache of whole-graph snapshots.  The sub-DAG
+splice is not modelled (open finding): a history in which it ran ends in a `tainted` state about which
+nothing is claimed. -/
+
+/-- **Recompilation yields exactly the edited formula**: the graph is compiled from a clause list whose
+models are those of `stored clauses − every copy of the removed clauses + the added clauses` (the
+clause list is adjusted twice on this path, which changes nothing). -/
+theorem recompilation_yields_the_edited_formula (s s' : EC.State) (e : EC.Edit)
+    (hnz : EC.NZ (s.cur.clauses ++ e.adds))
+    (h : EC.applyEdit s e .recompile = (s', .recompile)) (σ : Assignment) :
+    satCnf σ s'.cur.den = satCnf σ (EC.specEdit s.cur.clauses e) :=
+  EC.recompile_den s s' e hnz h σ
+
+/-- an edit that only adds clauses yields the conjunction of the previous formula with them -/
+theorem added_clauses_are_conjoined (s s' : EC.State) (e : EC.Edit) (hs : EC.Agree s.cur)
+    (hnz : EC.NZ (s.cur.clauses ++ e.adds)) (hr : e.rmvs = [])
+    (h : EC.applyEdit s e .recompile = (s', .recompile)) (σ : Assignment) :
+    satCnf σ s'.cur.den = (satCnf σ s.cur.den && satCnf σ e.adds) :=
+  EC.recompile_adds s s' e hs hnz hr h σ
+
+/-- the unit clause shortcut is taken only for an edit that adds one unit clause and removes nothing
+(the guard that was missing: defect D29), and conjoins that literal -/
+theorem unit_shortcut_only_for_pure_unit_edits (s s' : EC.State) (e : EC.Edit) (ch : EC.Choice)
+    (h : EC.applyEdit s e ch = (s', .unitClause)) :
+    ∃ l, e.adds = [[l]] ∧ e.rmvs = [] ∧ s'.cur.den = s.cur.den ++ [[l]] ∧ s'.cache = [] :=
+  EC.unit_den s s' e ch h
+
+/-- **the inverse of the latest edit restores all previous answers**: after a recompiled edit the edit
+with adds and removes exchanged is answered from the cache with the state before the edit (stored
+clauses, feature count and graph), and the edit once more brings the edited state back -/
+theorem inverse_of_latest_edit_restores_previous_state (s s1 : EC.State) (e : EC.Edit) (ch' : EC.Choice)
+    (h : EC.applyEdit s e .recompile = (s1, .recompile)) :
+    (EC.applyEdit s1 e.inv ch').2 = .undo ∧ (EC.applyEdit s1 e.inv ch').1.cur = s.cur ∧
+    (EC.applyEdit (EC.applyEdit s1 e.inv ch').1 e ch').2 = .undo ∧
+    (EC.applyEdit (EC.applyEdit s1 e.inv ch').1 e ch').1.cur = s1.cur :=
+  EC.inverse_restores s s1 e ch' h
+
+/-- `Undo` never does anything but restore a cached snapshot whose edit is the inverse of the request -/
+theorem undo_only_restores_the_inverse (s s' : EC.State) (e : EC.Edit) (ch : EC.Choice)
+    (h : EC.applyEdit s e ch = (s', .undo)) :
+    ∃ p ∈ s.cache, EC.isInverseOf e p.1 = true ∧ s'.cur = p.2 :=
+  EC.undo_restores_cached s s' e ch h
+
+/-- `simplify_clauses` (unit propagation to a fixpoint, run on the clauses of every compiled CNF) keeps
+the models of a satisfiable clause list; for an unsatisfiable one the code drops falsified clauses
+silently, which is why the hypothesis is needed (the property assumes satisfiable formulas) -/
+theorem stored_clauses_keep_the_models (cs : List EC.Clause) (hnz : EC.NZ cs) (hsat : EC.Sat cs)
+    (σ : Assignment) : satCnf σ (EC.simplify cs) = satCnf σ cs :=
+  EC.satCnf_simplify cs hnz hsat σ
+
+/-- **every history**: from a satisfiable CNF through any sequence of edits (tautological, duplicate,
+mixed add/remove, unit, inverse edits …) during which no sub-DAG splice ran and the formula stayed
+satisfiable: in every state the stored clause list has exactly the models of what the graph was
+compiled from, the same holds for every cached snapshot, and the cache holds at most the latest edit -/
+theorem stored_clauses_and_graph_agree_along_every_history (cs : List EC.Clause) (n : Nat)
+    (hnz : EC.NZ cs) (hsat : EC.Sat cs)
+    (reqs : List (List (EC.Clause × EC.App) × EC.Choice)) (hops : ∀ r ∈ reqs, EC.OpsNZ r.1)
+    (hall : ∀ t ∈ EC.runAll (EC.init cs n) reqs, t.tainted = false ∧ EC.Sat t.cur.den) :
+    ∀ t ∈ EC.runAll (EC.init cs n) reqs, EC.Inv t ∧ t.cache.length ≤ 1 :=
+  EC.history_inv cs n hnz hsat reqs hops hall
+
+/-- the hypotheses of the history theorem are satisfiable: `init [[1,2]] 3`, add (¬1 ∨ ¬2) (recompiled),
+its inverse (answered from the cache), the unit clause 3 -/
+example : EC.Inv (EC.init [[1, 2]] 3) :=
+  EC.init_inv [[1, 2]] 3 (by intro c hc l hl; simp at hc; subst hc; simp at hl; rcases hl with rfl | rfl <;> decide)
+    ⟨fun v => v == 1, by decide⟩
 
 end Ddnnf.C11
